@@ -2,7 +2,7 @@
 import ast
 import re
 
-from ..core import AnalysisError, src, qualname_of, closure_walk, enclosing_function
+from ..core import AnalysisError, attach_parents, src, qualname_of, closure_walk, enclosing_function
 from ..pysym import SymExec, show, subterms, str_parts, argof, guards_of, own_params, self_call_pred, all_calls, terms_of
 from ..rules_pyx import N, C, A
 from .. import codec
@@ -655,6 +655,109 @@ def r_ids(repo, rep, R='R15.3'):
     rep.check(okroot, R, '%s:%s %s' % (JX, ccg_fn.lineno, ccg_fn.name), 'jigg:root', 'root refers to the id returned for the top span of the tree', 'root is not set from the id returned for the top span')
 
 
+ROOT_FLAG_EXAMPLE = """
+def process(self, tree):
+    def traverse(node):
+        xml_node = etree.SubElement(res, 'span')
+        if node.is_leaf:
+            pass
+        else:
+            traverse(node.left_child)
+        if len(node) == len(tree):
+            xml_node.set('root', 'true')
+    res = etree.Element('ccg')
+    traverse(tree)
+"""
+
+
+def root_flag_findings(ccg_fn, trav):
+    """'exactly one span is the root': the places where a span gets root="true".  Accepted: (a) one unconditional statement of the
+    per-tree function after the walk, on element [0] of the <ccg> element, with the walk adding a node's span before it descends
+    (spans are in pre-order, [0] is the top span), or on the element the top call handed back; (b) inside the walk, under a test
+    that holds for the top node only: `node is <the tree>` or a flag parameter that is true in the first call and false in every
+    recursive one.  Anything decided from the contents of the node (its width, its position, its category) holds for a unary
+    child of the root as well."""
+    out = []
+    is_flag = lambda n: isinstance(n, ast.Call) and isinstance(n.func, ast.Attribute) and n.func.attr == 'set' and len(n.args) == 2 \
+        and isinstance(n.args[0], ast.Constant) and n.args[0].value == 'root' and isinstance(n.args[1], ast.Constant) and n.args[1].value == 'true'
+    in_trav = [n for n in ast.walk(trav) if is_flag(n)]
+    outside = [n for n in ast.walk(ccg_fn) if is_flag(n) and n not in in_trav]
+    if not in_trav and not outside:
+        # an attribute dictionary / keyword form: left to the attribute rules
+        return out
+    ccg_vars = [v for v, tag in elements(ccg_fn).items() if tag == 'ccg']
+    tps = own_params(trav)
+    rec_calls = [c for c in ast.walk(trav) if isinstance(c, ast.Call) and (src(c.func) == trav.name or (isinstance(c.func, ast.Attribute) and c.func.attr == trav.name and src(c.func.value) in ('self', 'cls')))]
+    top_calls = [c for c in ast.walk(ccg_fn) if isinstance(c, ast.Call) and c not in rec_calls and (src(c.func) == trav.name or (isinstance(c.func, ast.Attribute) and c.func.attr == trav.name and src(c.func.value) in ('self', 'cls')))]
+    tree_params = own_params(ccg_fn)
+    for n in outside:
+        stmt = n
+        while getattr(stmt, '_parent', None) is not None and not isinstance(stmt, ast.stmt):
+            stmt = stmt._parent
+        if getattr(stmt, '_parent', None) is not ccg_fn:
+            out.append((n.lineno, 'root="true" is set under a condition or in a loop of %s' % ccg_fn.name))
+            continue
+        rcv = n.func.value
+        if isinstance(rcv, ast.Subscript) and isinstance(rcv.slice, ast.Constant) and rcv.slice.value == 0 and src(rcv.value) in ccg_vars:
+            # pre-order: the span is attached before the first recursive call
+            made = [m for m in ast.walk(trav) if isinstance(m, ast.Call) and ((src(m.func) in ('etree.SubElement', 'SubElement') and m.args and src(m.args[0]) == src(rcv.value))
+                                                                               or (isinstance(m.func, ast.Attribute) and m.func.attr == 'append' and src(m.func.value) == src(rcv.value)))]
+            if made and rec_calls and min(m.lineno for m in made) > min(c.lineno for c in rec_calls):
+                out.append((n.lineno, 'spans are attached after their children, %s[0] is not the top span' % src(rcv.value)))
+        elif isinstance(rcv, ast.Name) and any(isinstance(a, ast.Assign) and a.value in top_calls and rcv.id in [x.id for t in a.targets for x in ast.walk(t) if isinstance(x, ast.Name)]
+                                                for a in ast.walk(ccg_fn)):
+            pass
+        else:
+            out.append((n.lineno, 'root="true" is set on %s, which is not the top span by construction' % src(rcv)))
+    if len(outside) > 1 or (outside and in_trav):
+        out.append(((outside + in_trav)[-1].lineno, 'root="true" is set in %d places' % len(outside + in_trav)))
+    for n in in_trav:
+        tests = []
+        q = n
+        while getattr(q, '_parent', None) is not None and q._parent is not trav:
+            par = q._parent
+            if isinstance(par, ast.If) and q in par.body:
+                tests.append(par.test)
+            elif isinstance(par, (ast.If, ast.For, ast.While)):
+                tests.append(None)
+            q = par
+        ok = False
+        for t in tests:
+            if t is None:
+                continue
+            if isinstance(t, ast.Compare) and len(t.ops) == 1 and isinstance(t.ops[0], ast.Is):
+                a, b = src(t.left), src(t.comparators[0])
+                if (a in tps and b in tree_params) or (b in tps and a in tree_params):
+                    ok = True
+            if isinstance(t, ast.Name) and t.id in tps:
+                i = tps.index(t.id)
+                dflt = dict(zip(reversed(tps), reversed([src(d) for d in trav.args.defaults])))
+
+                def passed(c):
+                    for k in c.keywords:
+                        if k.arg == t.id:
+                            return src(k.value)
+                    return src(c.args[i]) if len(c.args) > i else dflt.get(t.id)
+                if top_calls and all(passed(c) == 'True' for c in top_calls) and all(passed(c) == 'False' for c in rec_calls):
+                    ok = True
+        if not ok:
+            out.append((n.lineno, 'root="true" is decided inside the walk by %s, which a unary child of the root satisfies as well'
+                        % ([src(t) for t in tests if t is not None] or ['nothing'])[0]))
+    return out
+
+
+def r_root_flag(repo, rep, R='R15.3'):
+    jm = repo.module(JX)
+    ccg_fn, trav = _jigg_roles(jm)
+    ex = attach_parents(ast.parse(ROOT_FLAG_EXAMPLE))
+    exf = ex.body[0]
+    if not root_flag_findings(exf, exf.body[0]):
+        raise AnalysisError('the root-flag rule does not match its positive example')
+    found = root_flag_findings(ccg_fn, trav)
+    rep.check(not found, R, '%s:%s %s' % (JX, (found[0][0] if found else ccg_fn.lineno), ccg_fn.name), 'jigg:one-root-flag',
+              'exactly one span of a tree carries root="true", the one the walk started from', '; '.join(x for _, x in found))
+
+
 def yaml_rules(repo, rel):
     vals = set()
     for line in repo.text(rel).split('\n'):
@@ -1004,6 +1107,7 @@ def check(repo, rep, tier):
     r_label_recovery(repo, rep, 'R15.1')
     r_jigg(repo, rep)
     r_ids(repo, rep)
+    r_root_flag(repo, rep)
     n = r_ccg2lambda_vocab(repo, rep)
     rep.rule('R15.6', 'ccg2lambda rebuilds each tree from the document it is given: the tree builder keeps no table that outlives a call (span ids restart with every document)')
     from ..lints import r_module_state
